@@ -353,6 +353,11 @@ async fn drive(c: &mut Cluster, case: &Case) -> Outcome {
         }
     }
     if wait_leader(c, Duration::from_secs(20)).await.is_none() {
+        if std::env::var("VERIF_C37_DEBUG").is_ok() {
+            for n in c.nodes.iter().flatten() {
+                eprintln!("metrics: {:?}", n.raft.metrics().borrow().clone());
+            }
+        }
         NOT_CONVERGED.fetch_add(1, Ordering::Relaxed);
         return Outcome::discard("no initial leader within 20 s");
     }
